@@ -669,14 +669,14 @@ theorem package_seg_step (cap : Nat) (pkg : Name) (s : PSeg) (hs : s.wf = true)
     simp only [PSeg.good, List.all_eq_true] at hg
     have hc := class_body (afterLast cSlash c.fq) c.body hb hg f c.tag rest [] ht (by omega)
     have hfile : sourceFileOf c.attrs (beforeFirst cDollar (afterLast cSlash c.fq))
-        = c.abs.file := by
+        = .ok c.abs.file := by
       simp only [XClass.abs, Class.file, Class.simple, sourceFileOf]
       cases hsf : c.sourcefile with
       | some f => simp only [hsf] at h2; simp [getAttr_of_hasAttr nd h2]
       | none => simp only [hsf] at h2; simp [getAttr_of_hasNoKey nd h2]
-    simp only [packageLoop, ht, if_true, getAttr_of_hasAttr nd h1]
+    simp only [packageLoop, ht, if_true, getAttr_of_hasAttr nd h1, hfile]
     simp only [List.nil_append] at hc ⊢
-    rw [hc, hfile]
+    rw [hc]
     simp [PSeg.step, XClass.fns]
   | src sf =>
     simp only [PSeg.wf, XSource.wf, Bool.and_eq_true, decide_eq_true_eq, List.all_eq_true] at hs
@@ -2358,8 +2358,10 @@ theorem exTruncated_parse_error (fuel : Nat) : parse exTruncated (fuel + 5) = .e
   have g4 : getAttr sLine [([110, 97, 109, 101], [109]), ([108, 105, 110, 101], [49])]
       = .ok [49] := by rfl
   have g5 : parseUnsigned U32MAX [49] = some 1 := by decide
+  have g6 : ∀ top, sourceFileOf [([110, 97, 109, 101], [112, 47, 65])] top = .ok (top ++ sDotJava) :=
+    fun _ => rfl
   simp only [parse, parseCap, exTruncated, expand, reportLoop, h1, h2, if_false, if_true, g1, packageLoop,
-    h3, g2, classLoop, h4, g3, g4, g5, methodLoop_eof]
+    h3, g2, g6, classLoop, h4, g3, g4, g5, methodLoop_eof]
 
 theorem lineAttrs_error_kind : ∀ (attrs : List Attr) (acc : LineAcc)
     (k : ErrKind), lineAttrs attrs acc = .error k → k = .parse := by
@@ -2434,8 +2436,38 @@ theorem method_counter_without_covered (n : Name) (a : List Attr) (rest : List X
   simp [methodLoop, hn, getAttr_of_hasAttr nd h1, getAttr_of_hasNoKey nd h2]
 
 theorem class_without_sourcefilename (a : List Attr) (top : Name) (nd : keysOk a = true)
-    (h : hasNoKey a sSourcefilename = true) : sourceFileOf a top = top ++ sDotJava := by
+    (h : hasNoKey a sSourcefilename = true) : sourceFileOf a top = .ok (top ++ sDotJava) := by
   simp [sourceFileOf, getAttr_of_hasNoKey nd h]
+
+/-- `get_xml_attribute` only fails with `InvalidRecord` when no attribute has the key -/
+theorem getAttrAux_invalidRecord (key : Name) : ∀ (attrs : List Attr),
+    getAttrAux key attrs = .error .invalidRecord → ∀ a ∈ attrs, a.1 ≠ key := by
+  intro attrs
+  induction attrs with
+  | nil => intro _ a ha; cases ha
+  | cons b attrs ih =>
+    obtain ⟨k, v⟩ := b
+    intro h a ha
+    unfold getAttrAux at h
+    split at h
+    · cases h
+    · split at h
+      · split at h <;> cases h
+      · rename_i hk
+        rcases List.mem_cons.mp ha with rfl | hm
+        · exact hk
+        · exact ih h a hm
+
+/-- a `sourcefilename` that is present but unreadable (the look-up fails with anything but
+"absent") makes the class arm of the package loop return that error, before the class body is read -/
+theorem class_unreadable_sourcefilename (cap : Nat) (pkg n : Name) (a : List Attr)
+    (rest : List XmlEvent) (fuel : Nat) (m : List (Name × Cov)) (fq : Name) (k : ErrKind)
+    (hn : localName n = sClass) (h1 : getAttr sName a = .ok fq)
+    (h2 : getAttr sSourcefilename a = .error k) (hk : k ≠ .invalidRecord) :
+    packageLoop cap pkg (fuel + 1) (.start n a :: rest) m = .err k := by
+  have : sourceFileOf a (beforeFirst cDollar (afterLast cSlash fq)) = .error k := by
+    unfold sourceFileOf; rw [h2]; cases k <;> simp_all
+  simp [packageLoop, hn, h1, this]
 
 theorem class_or_sourcefile_without_name (cap : Nat) (pkg n : Name) (a : List Attr)
     (rest : List XmlEvent) (fuel : Nat) (m : List (Name × Cov))
